@@ -107,6 +107,9 @@ def run_case(rng, res, idx):
     for ei in range(nev):
         evk = 'eval' if (ei > 0 and rng.random() < 0.3) else 'train'
         x = gen.make_batch(dgen, rng.randint(2, 6), in_shape, pdt)
+        if len(in_shape) == 1 and rng.random() < 0.08:
+            x = x[0]   # an unbatched sample: a rank-1 input is a legal input of a Linear
+            res.count('unbatched_inputs')
         if evk == 'eval':
             sd0 = copy.deepcopy(p.state_dict())
             mem0 = dict(p.memory_usage())
